@@ -77,6 +77,7 @@ pub fn standin_identifier_between(r: &mut Report, tier: &str) {
                 r.case("identifier.between_two_bounds", ok, &|| format!("between({}, {}, {})", show(a), show(b), m), &|| format!("got {}", show(&c)));
             }
         }
+        r.case("identifier.into_value_is_value", a.clone().into_value() == *a.value(), &|| show(a), &|| "into_value() differs from value()".into());
         for m in markers {
             let c = Identifier::between(Some(a), None, m);
             r.case("identifier.between_low_only", a < &c && *c.value() == m, &|| format!("between({}, None, {})", show(a), m), &|| format!("got {}", show(&c)));
@@ -358,7 +359,7 @@ fn glist_search(r: &mut Report, depth: usize) {
 
 pub fn standin_list_reads(r: &mut Report) {
     r.target = "List::read / read_into / position_entry / into_iter and GList::read / read_into (generic FromIterator collectors, not under contract): agree with the verified iter / iter_entries / get".into();
-    r.bound = "all causal-delivery programs of <= 2 steps over 3 List replicas; all GList programs of <= 3 steps over 2 replicas".into();
+    r.bound = "all causal-delivery programs of <= 2 steps over 3 List replicas; all GList programs of <= 4 steps over 2 replicas (forked identifiers included)".into();
     let w0 = World { reps: vec![L::new(), L::new(), L::new()], log: vec![vec![]; 3], ops: vec![], desc: String::new(), next_val: b'a' };
     let mut frontier = vec![w0];
     for _ in 0..2 {
@@ -381,7 +382,7 @@ pub fn standin_list_reads(r: &mut Report) {
         frontier = next;
     }
     let mut sub = Report::new("glist");
-    glist_search(&mut sub, 3);
+    glist_search(&mut sub, 4);
     if let Some((n, f)) = sub.per_check.get("glist.reads_in_identifier_order") {
         let e = r.per_check.entry("glist.collectors_agree_with_iter".into()).or_insert((0, 0));
         e.0 += n; e.1 += f; r.cases += n; r.failures += f;
